@@ -31,6 +31,15 @@ public:
 private:
   using strides_type = std::array<index_type,rank_>;
 
+  // A mapping of rank 0 need not provide `stride(r)`
+  template <class M, class = void>
+  struct HasStride
+    : std::bool_constant<(M::extents_type::rank() == 0)> {};
+
+  template <class M>
+  struct HasStride<M, std::void_t<decltype(std::declval<M>().stride(std::declval<rank_type>()))>>
+    : std::true_type {};
+
 public:
 
   /// \brief The default construction initializes the strides from layout_right
@@ -71,13 +80,15 @@ public:
     std::enable_if_t<(M::is_always_unique()), int> = 0,
     std::enable_if_t<(M::is_always_strided()), int> = 0,
     decltype(std::declval<M>().extents(), bool{}) = true,
-    decltype(std::declval<M>().stride(std::declval<rank_type>()), bool{}) = true>
+    std::enable_if_t<HasStride<M>::value, int> = 0>
   constexpr mapping (const M& m) noexcept
     : extents_(m.extents())
     , strides_{}
   {
-    for (rank_type r = 0; r < rank_; ++r)
-      strides_[r] = m.stride(r);
+    if constexpr(rank_ > 0) {
+      for (rank_type r = 0; r < rank_; ++r)
+        strides_[r] = m.stride(r);
+    }
   }
 
   /// \brief Copy-assignment for the mapping
